@@ -273,10 +273,16 @@ def c10(tier, seed):
 
 def c13(tier, seed):
     c = Check("C13", tier, seed)
-    c.rule = "MC: read_consistent as coded vs a device updating between any two accesses (3 fields, <=3 updates, liveness under fairness), negative configuration (single pass) must yield a torn value; traces: (a) bounds grid offset x width x window size on the real MMIO and PCI transports (mmio and pci/ops families, read_config/write_config operations), (b) every placement of <=2 (thorough: 3) device updates among the first 10 (16) accesses of each multi-field reader (blk capacity, socket CID, console size, MAC, 9p tag) on the model transport and the real modern MMIO transport"
+    c.rule = "MC: read_consistent as coded vs a device updating between any two accesses (3 fields, <=3 updates, liveness under fairness), negative configuration (single pass) must yield a torn value; Apalache (SMT): inductive invariant of the same loop for any number of updates and 1..1000 fields (ReadConsistentInd.tla); traces: (a) bounds grid offset x width x window size on the real MMIO and PCI transports (mmio and pci/ops families, read_config/write_config operations), (b) every placement of <=2 (thorough: 3) device updates among the first 10 (16) accesses of each multi-field reader (blk capacity, socket CID, console size, MAC, 9p tag) on the model transport and the real modern MMIO transport"
     c.assumptions = ["legacy MMIO devices have no generation register: torn reads cannot be excluded there and are outside the property", "snapshot ids are carried by every byte the reader looks at"]
     c.add_mc(run_tlc_mc("ConfigMC", "Config_ok.cfg", workers=2, timeout=300))
     c.add_mc(run_tlc_mc("ConfigMC", "Config_bug_single_pass.cfg", workers=2, timeout=300), expect_violation=True)
+    # the same loop with the number of device updates and of fields unbounded: inductive invariant
+    # discharged by Apalache (base, step, it implies Untorn; the single-pass variant fails the step)
+    c.add_mc(run_apalache("ReadConsistentInd", "IndInv", cinit="CInit", init="Init", length=0))
+    c.add_mc(run_apalache("ReadConsistentInd", "IndInv", cinit="CInit", init="IndInit", length=1))
+    c.add_mc(run_apalache("ReadConsistentInd", "Untorn", cinit="CInit", init="IndInit", length=0))
+    c.add_mc(run_apalache("ReadConsistentInd", "IndInv", cinit="CInit", init="IndInit", nxt="NextSinglePass", length=1), expect_violation=True)
     out = os.path.join(WORK, c.pid, "cfg.ndjson")
     idx = run_harness("cfg", out, seed, tier)
     v = validate_traces("ConfigTrace", "ConfigTrace.cfg", out, idx, max_events=1500)
@@ -425,9 +431,16 @@ def c19(tier, seed):
 
 def c20(tier, seed):
     c = Check("C20", tier, seed)
-    c.rule = "MC (PcmMC): pcm_xfer transcribed, 5-7 bytes in periods of 1-2, ring of 2-3 slots, device completing in order: chunks consecutive, <= period, <= capacity outstanding, terminates with success (liveness under fairness); negative configuration with an out-of-order device yields WrongToken with chains posted (known finding D11); traces: entropy, clock (every status, clock ids 0..65535, all type/smearing codes), 9P (request/response sizes, bad size header), GPU (resolution, framebuffer setup / re-setup, flush, cursor setup/move, EDID with/without the feature; an error response injected at any command of any operation; DMA ledger of backing memory) and sound (control requests with set_up prefix, parameter validation, PCM blocking transfers with arbitrary frame counts vs period, non-blocking transfers completed in any order, error statuses) on all transports and policies, every decoded request field compared with the caller's parameters"
+    c.rule = "MC (PcmMC): pcm_xfer transcribed, 5-7 bytes in periods of 1-2, ring of 2-3 slots, device completing in order: chunks consecutive, <= period, <= capacity outstanding, terminates with success (liveness under fairness); negative configuration with an out-of-order device yields WrongToken with chains posted (known finding D11); Apalache (SMT): inductive invariant of the same transcription for every frame count and period up to 10^9 and rings of 1..4 slots (PcmInd.tla: base, step, implies Safety; step refuted for an out-of-order device); traces: entropy, clock (every status, clock ids 0..65535, all type/smearing codes), 9P (request/response sizes, bad size header), GPU (resolution, framebuffer setup / re-setup, flush, cursor setup/move, EDID with/without the feature; an error response injected at any command of any operation; DMA ledger of backing memory) and sound (control requests with set_up prefix, parameter validation, PCM blocking transfers with arbitrary frame counts vs period, non-blocking transfers completed in any order, error statuses) on all transports and policies, every decoded request field compared with the caller's parameters"
     c.assumptions = ["request decoding in harness/src/scen_cmd.rs follows the wire layouts of Virtio 1.2 5.7 / 5.14 and the rtc / 9p device definitions", "EDID parsing is covered by the repository's own vectors only (see DESIGN.md)"]
     mc(c, ["Pcm_inorder", "Pcm_inorder_b"], tier, module="PcmMC", negative=["Pcm_bug_ooo_device"])
+    # the same transcription for EVERY frame count and period (ring of up to 4 slots): an inductive
+    # invariant discharged by Apalache (base case, step, it implies the property-level Safety);
+    # with an out-of-order device the step must fail (D11)
+    c.add_mc(run_apalache("PcmInd", "IndInv", cinit="CInit", init="Init", length=0))
+    c.add_mc(run_apalache("PcmInd", "IndInv", cinit="CInit", init="IndInit", length=1))
+    c.add_mc(run_apalache("PcmInd", "Safety", cinit="CInit", init="IndInit", length=0))
+    c.add_mc(run_apalache("PcmInd", "IndInv", cinit="CInit", init="IndInit", nxt="NextOoo", length=1), expect_violation=True)
     device_family(c, "cmd", "CmdTrace", "CmdTrace.cfg", seed, tier, max_events=400)
     device_family(c, "cmd", "CmdTrace", "CmdTrace.cfg", seed, tier, max_events=1, extra=["ooo"], queues=False)
     return c.finish()
